@@ -54,6 +54,13 @@ func genC18(seed uint64, tier string) *Plan {
 		}
 		scan.Sub = append(scan.Sub, pause)
 	}
+	if r.Bool(0.25) {
+		// a scan that starts while a flush of its table is under way, at one of
+		// the flush's hook sites: its snapshot is taken between two steps of
+		// the flush
+		p.Ops = append(p.Ops, Op{K: "scanInFlush", Dt: int64(time.Millisecond), S: scan.S,
+			S2: PickOne(r, []string{"flush.begin", "flush.headerWritten", "flush.bodyDone", "flush.synced", "flush.renamed", "flush.swapped", "flush.swapped"})})
+	}
 	p.Ops = append(p.Ops, scan)
 	maybeYield(r, p, 0.4)
 	return p
@@ -76,6 +83,43 @@ func execC18(e *Env, p *Plan) error {
 			m.Offer(op.P, math.MinInt64)
 		case "flush":
 			n.DB.FlushAll()
+		case "scanInFlush":
+			e.Settle()
+			table := op.S
+			mt := m.Tables[table]
+			if mt == nil {
+				return fmt.Errorf("no table %s", table)
+			}
+			var q *QResult
+			e.mu.Lock()
+			e.OnPoint = func(nn *Node, site, tbl string) {
+				if q != nil || nn != n || site != op.S2 || tbl != table {
+					return
+				}
+				q = n.Query("SELECT * FROM "+table, QOpts{IncludeMem: true})
+				e.Count("probe.scan-started-inside-flush")
+			}
+			e.mu.Unlock()
+			n.DB.FlushAll()
+			e.mu.Lock()
+			e.OnPoint = nil
+			e.mu.Unlock()
+			if q == nil {
+				break // nothing to flush
+			}
+			if q.Err != nil {
+				return &Violation{"query-error", fmt.Sprintf("scan of %s started at %s: %v", table, op.S2, q.Err)}
+			}
+			// every accepted point was processed before the flush began and
+			// nothing was inserted since: the scan reflects all of them, once
+			if v := compareToModelEnv(e, mt, q, "scan started at "+op.S2); v != nil {
+				v.Sig = "scan-inside-flush:" + v.Sig
+				v.Detail = fmt.Sprintf("a memstore-inclusive scan of %s that started while a flush was at %s does not reflect the table as of its start: %s", table, op.S2, v.Detail)
+				return v
+			}
+			if len(mt.Rows) > 0 {
+				e.Count("nontrivial")
+			}
 		case "scan":
 			e.Settle()
 			table := op.S
